@@ -341,9 +341,9 @@ func (s *c04Sim) modelPG(g *c04Gang, kind string) {
 	}
 }
 
-func (s *c04Sim) counts(g *c04Gang, membersOnly bool) (w, b int) {
+func (s *c04Sim) counts(g *c04Gang, liveOnly bool) (w, b int) {
 	for _, p := range s.pods {
-		if p.gang != g || (membersOnly && !p.known) {
+		if p.gang != g || (liveOnly && p.deleteDelivered) {
 			continue
 		}
 		switch p.st {
@@ -358,14 +358,14 @@ func (s *c04Sim) counts(g *c04Gang, membersOnly bool) (w, b int) {
 
 // groupSatisfied states the all-or-nothing rule on the model: every gang of the group is defined and holds at least
 // its minimum number of pods that hold resources under its match policy. exempt reports that the once-satisfied
-// exemption was needed for at least one gang. With membersOnly, pods whose informer delete has been delivered (but which
+// exemption was needed for at least one gang. With liveOnly, pods whose informer delete has been delivered (but which
 // a Permit / PostBind that raced with the delete put back into the cache) are not counted.
-func (s *c04Sim) groupSatisfied(grp int, membersOnly bool) (ok, exempt bool, detail string) {
+func (s *c04Sim) groupSatisfied(grp int, liveOnly bool) (ok, exempt bool, detail string) {
 	ok = true
 	var parts []string
 	for _, gi := range s.groups[grp] {
 		g := s.gangs[gi]
-		w, b := s.counts(g, membersOnly)
+		w, b := s.counts(g, liveOnly)
 		var sat bool
 		switch {
 		case !g.recExists:
@@ -656,7 +656,7 @@ func (s *c04Sim) permit(t *rapid.T, p *c04Pod) {
 		s.c.Class("divergence:gang-missing-in-model-but-found(not asserted)")
 	}
 	ok, exempt, detail := s.groupSatisfied(g.grp, false)
-	okMembers, _, _ := s.groupSatisfied(g.grp, true)
+	okLive, _, _ := s.groupSatisfied(g.grp, true)
 	if s.disturbedAfter[g.grp] {
 		s.c.Class(s.disturbKind[g.grp])
 		if len(s.groups[g.grp]) >= 2 {
@@ -678,7 +678,12 @@ func (s *c04Sim) permit(t *rapid.T, p *c04Pod) {
 			s.violation(t, sig, "Permit(%s) = Success but the gang group %v is not satisfied at that instant: %s", p.key, s.groupIDs(g.grp), detail)
 			return
 		}
-		s.c.ClassIf(!okMembers, "released-only-because-a-deleted-pod-is-counted(tolerated)")
+		s.c.ClassIf(!okLive, "released-only-because-a-deleted-pod-is-counted(tolerated)")
+		if !okLive && os.Getenv("VERIF_C04_STRICT_DELETED") != "" { // opt-in, stricter than the default reading (see the registry assumptions)
+			_, _, live := s.groupSatisfied(g.grp, true)
+			s.violation(t, "permit:released-counting-a-deleted-pod", "Permit(%s) = Success only because a pod whose informer delete was already handled is counted: live pods %s; all %s", p.key, live, detail)
+			return
+		}
 		p.phase = c04PhBinding
 		// what Coscheduling.Permit does on Success
 		s.allowed, s.rejected = nil, nil
